@@ -377,6 +377,36 @@ pub fn check_case(cx: &mut Ctx, case: &Case, mut rep: Option<&mut Report>) -> Ve
             }
         }
     }
+    // 6. "into the same emulator at any later moment": the saving emulator itself — which by now may
+    // have run on for a few steps, and whose latch still holds exactly the byte the file carries —
+    // loads its own snapshot back. Expected: the round-trip state (the spec's reading of the prescribed
+    // file; nothing SNA carries depends on the receiver).
+    {
+        let sp = case.src.sp();
+        let stack_ok = m128 || (sp.wrapping_sub(1) >= 0x4000 && sp.wrapping_sub(2) >= 0x4000);
+        let rt = model.ask("rt 0 0");
+        if stack_ok && rt != "none" {
+            let want = kv_of(&rt);
+            let outcome = load_sna(&mut e, &bytes);
+            if let Some(r) = rep.as_deref_mut() {
+                r.eval();
+                r.class(format!("reload into the saving emulator {} lock={}", if m128 { "128k" } else { "48k" }, case.src.locked() as u8));
+            }
+            if outcome != Outcome::Ok {
+                out.push(Finding { phase: "reload", group: "outcome".into(), kind: Kind::SpecViolated, got: outcome.text(), want: "ok".into() });
+            } else {
+                let o3 = observe(&mut e, m128);
+                let mut tmp = vec![];
+                compare_state("reload", &o3, None, Some(&want), &STATE_KEYS, &mut tmp);
+                for f in tmp {
+                    // a group the load into the other receiver already reported is not repeated
+                    if !out.iter().any(|g| g.group == f.group && g.kind == Kind::SpecViolated) {
+                        out.push(f);
+                    }
+                }
+            }
+        }
+    }
     out
 }
 
@@ -703,7 +733,32 @@ steps. distinct = (machine, bank at 0xC000, source lock, receiver halt/skip/pref
         let mut r = rng.fork();
         let m128 = k % 3 != 0;
         let src = random_state(&mut r, m128, true);
-        let recv = if r.chance(1, 4) { MState::fresh(m128) } else { random_state(&mut r, m128, false) };
+        let recv = match r.below(8) {
+            0 | 1 => MState::fresh(m128),
+            2 | 3 => {
+                // the saving machine itself, some time later: same latch (mostly), some things moved on
+                let mut c = src.clone();
+                c.halt = r.chance(1, 2);
+                c.skip = r.chance(1, 3);
+                c.pfx = if r.chance(1, 2) { *r.pick(&[2u8, 3, 4]) } else { 0 };
+                for _ in 0..r.below(4) {
+                    let k = r.below(12) as usize;
+                    c.w[k] = rnd16(&mut r);
+                }
+                for _ in 0..r.below(3) {
+                    let k = r.below(c.banks.len() as u64) as usize;
+                    c.banks[k] = Bank::new(1 + r.below(0xFFFF_FFFF));
+                }
+                if r.chance(1, 3) {
+                    c.border = r.below(8) as u8;
+                }
+                if m128 && r.chance(1, 4) {
+                    c.latch = r.u8();
+                }
+                c
+            }
+            _ => random_state(&mut r, m128, false),
+        };
         cases.push(Case { src, recv });
     }
     for (k, case) in cases.iter().enumerate() {
